@@ -438,7 +438,8 @@ def gen_match_world(rng: random.Random, n_steps: int) -> Dict[str, Any]:
 
 
 def gen_world(rng: random.Random, *, n_steps: int = 40, fleets: Optional[bool] = None, humans: bool = True,
-              dt: Optional[int] = None, tight: bool = True, focus: Optional[str] = None, osm: bool = False) -> Dict[str, Any]:
+              dt: Optional[int] = None, tight: bool = True, focus: Optional[str] = None, osm: bool = False,
+              pool: bool = False) -> Dict[str, Any]:
     """a small world built to make vehicles contend: few plugs and stalls, co-located entities, low charge"""
     if focus == "queue":
         return gen_queue_world(rng, n_steps)
@@ -511,7 +512,8 @@ def gen_world(rng: random.Random, *, n_steps: int = 40, fleets: Optional[bool] =
         if rng.random() < 0.5:
             dep = (dep // dt) * dt
         requests.append({"id": f"r{k+1:02d}", "o": o, "d": d, "dep": dep, "pax": rng.randint(1, 2),
-                         "fleet": rng.choice(fleet_ids) if fleet_ids else None})
+                         "fleet": rng.choice(fleet_ids) if fleet_ids else None,
+                         "pool": bool(pool and rng.random() < 0.25)})      # requests that allow pooling (finding F15)
     requests.sort(key=lambda r: (r["dep"], r["id"]))
     w: Dict[str, Any] = {
         "name": "adv", "dt": dt, "start": 0, "end": t_end, "cancel": rng.choice([3 * dt, 5 * dt, 600]),
